@@ -1,69 +1,70 @@
 """C28 - WebSocket messages are relayed exactly once with their exact content.
 
+All four rules are decided by *interpreting* the repository code (mitmlint.pyint on the AST; nothing is imported or run) against a stub of the
+trusted wsproto library, and comparing what the two peers, the flow and the addons observe - never the shape of the code.
+
 Decided:
-  R28.1  symbolic path analysis of `WebsocketLayer.relay_messages`, case-split on direction and text/binary: per
-         finished message exactly one `messages.append(M)`, then one WebsocketMessageHook; M = WebSocketMessage(TEXT iff
-         text, from_client, b"".join(frame buffer), injected=..); the frame buffer is reset to [b""]; forwarding happens
-         only under `not M.dropped`, after the hook, to the OTHER peer, as `fragmentizer(M.content)` where the
-         fragmentizer was built from the pre-reset buffer and the same text flag; an unfinished frame end appends a new
-         buffer element and nothing else happens; Ping/Pong are forwarded once to the other peer; on CloseConnection the
-         recorded close_code / close_reason / closed_by_client come from the event and the direction, one
-         WebsocketEndHook fires and the layer enters `done`, which is silent.
-  R28.2  finite evaluation of the `Fragmentizer` class AST on TEXT content (1-4 byte UTF-8 characters, every
-         FRAGMENT_SIZE 1..6, same-length and changed-length re-fragmentation): the concatenated text of the produced
-         TextMessages equals the content and no U+FFFD is introduced.  Any sound idiom passes (incremental decoder,
-         slicing the decoded str, boundary scan); decoding byte-offset slices independently fails.   (F-C28, repaired)
-  R28.3  finite evaluation of `Fragmentizer.__call__` on BINARY content for all fragment-length lists (incl. empty
-         frames) up to total 6 x all content lengths 0..9 x FRAGMENT_SIZE 1..4: pieces concatenate to the content
-         (every byte exactly once, in order), at least one piece, exactly the last piece has message_finished=True,
-         unchanged length => the original fragment lengths are kept.
-  R28.4  ("with or without permessage-deflate") finite evaluation of `WebsocketLayer.start` (its AST, on stubs that
-         implement the documented contract of the trusted wsproto library) over a set of `Sec-WebSocket-Extensions`
-         response headers (absent; permessage-deflate without / with one / with several parameters, any spacing around
-         ';'; unknown extensions before / after it): each of mitmproxy's two wsproto connections is created with
-         exactly one *own* PerMessageDeflate object per negotiated permessage-deflate entry, finalised exactly once with
-         EXACTLY the negotiated parameter list (so its compression context / window equals the peers'), none
-         otherwise; `client_ws` is the SERVER-role connection on `context.client`, `server_ws` the CLIENT-role one on
-         `context.server`.  A parameter that is lost, invented, or an extension object shared by both connections
-         makes a later compressed message undecodable for the receiving peer (close 1007): the recorded message is
-         never delivered.  The comparison is on the *parameters that arrive in the library*, not on how the header is
-         cut up: any spelling that hands the library the full entry passes.
-NOT decided: wsproto framing / the deflate codec itself (library), real sockets.
+  R28.1  `WebsocketLayer.relay_messages` (with everything it reaches: WebsocketConnection helpers, Fragmentizer, websocket.WebSocketMessage,
+         commands.*, extracted (generator) helpers) is interpreted between two stub wsproto connections, a recording proxy core and an addon
+         that keeps / edits (same length, longer than FRAGMENT_SIZE, shorter, empty) / drops the message at the hook, for both directions, on
+         scripted wsproto event sequences (single-frame text, fragmented binary with partial and empty frames, a message split over several
+         reads with an interleaved ping, ping / pong, close frame, lost connection, injected text / binary).  Per finished message: exactly one
+         new entry in flow.websocket.messages when exactly one WebsocketMessageHook fires; the entry has type TEXT iff text, the direction,
+         the joined payload, dropped=False; after the hook and only unless dropped the OTHER peer's connection sends one fragment sequence
+         of the right event type whose concatenation is the post-hook content, only the last fragment finished, and with the original frame
+         boundaries when the addon did not touch the message (=> frame ends are tracked and the buffer is reset per message); nothing is
+         sent before the hook or to the sender; every wsproto send() result reaches the connection; an unfinished message only buffers;
+         Ping/Pong are forwarded once to the other peer; on CloseConnection (frame or lost connection) close_code / close_reason /
+         closed_by_client seen by the one WebsocketEndHook are the event's and the direction, and the handler installed afterwards is silent.
+  R28.2  finite evaluation of the `Fragmentizer` class on TEXT content (1-4 byte UTF-8 characters, every FRAGMENT_SIZE 1..6, same-length
+         and changed-length re-fragmentation): the concatenated text of the produced TextMessages equals the content and no U+FFFD is
+         introduced.  Any sound idiom passes (incremental decoder, slicing the decoded str, boundary scan); decoding byte-offset slices
+         independently fails.   (F-C28, repaired)
+  R28.3  finite evaluation of `Fragmentizer.__call__` on BINARY content for all fragment-length lists (incl. empty frames) up to total 6 x
+         all content lengths 0..9 x FRAGMENT_SIZE 1..4: pieces concatenate to the content (every byte exactly once, in order), at least one
+         piece, exactly the last piece has message_finished=True, unchanged length => the original fragment lengths are kept.
+  R28.4  ("with or without permessage-deflate") evaluation of `WebsocketLayer.start` (on stubs that implement the documented contract of the
+         trusted wsproto library) over a set of `Sec-WebSocket-Extensions` response headers (absent; permessage-deflate without / with one /
+         with several parameters, any spacing around ';'; unknown extensions before / after it): each of mitmproxy's two wsproto connections
+         is created with exactly one *own* PerMessageDeflate object per negotiated permessage-deflate entry, finalised exactly once with
+         EXACTLY the negotiated parameter list (so its compression context / window equals the peers'), none otherwise; `client_ws` is the
+         SERVER-role connection on `context.client`, `server_ws` the CLIENT-role one on `context.server`.  A parameter that is lost,
+         invented, or an extension object shared by both connections makes a later compressed message undecodable for the receiving peer
+         (close 1007): the recorded message is never delivered.  The comparison is on the *parameters that arrive in the library*, not on
+         how the header is cut up: any spelling that hands the library the full entry passes.
+NOT decided: wsproto framing / the deflate codec itself (library), real sockets.  Generators that are *iterated* (Fragmentizer) are run
+eagerly (their laziness is not modelled); code outside the interpreter's subset gives ANALYSIS-ERROR, never a guess.
 """
 
 from __future__ import annotations
 
 import ast
 import codecs
+import enum
+import re
+import types
 
 from ..core import AnalysisError
-from ..core import norm
-from ..model import attr_chain
-from ..model import last_attr
-from ..model import yields_in
-from ..paths import C
-from ..paths import is_const
-from ..paths import traces_of
+from ..pyint import ClassRef as PClassRef
+from ..pyint import DictRec as PDictRec
+from ..pyint import Func as PFunc
+from ..pyint import Gen as PGen
+from ..pyint import Interp as PInterp
+from ..pyint import Raised as PRaised
+from ..pyint import Rec as PRec
 from ..selftest import Mutant
-from ._helpers_D import attr_of
-from ._helpers_D import Concrete
-from ._helpers_D import Raised
-from ._helpers_D import show
-from ._helpers_D import sym
-from ._helpers_D import SymSpec
-from ._helpers_D import call_args
-from ._helpers_D import last_attr_name
-from ._helpers_D import SendSpec
 
 PROP = "C28"
 REG = {
     "strength": "partial",
-    "technique": "symbolic path analysis of WebsocketLayer.relay_messages (case split direction x text/binary) + finite evaluation of the "
-    "Fragmentizer class AST (all small fragment patterns, chunk sizes, multi-byte UTF-8 contents)",
+    "technique": "interpretation (pyint) of WebsocketLayer.relay_messages and its helpers between stub wsproto connections with a recording proxy core "
+    "and an editing / dropping addon (scripted event sequences x both directions x addon policies) + finite evaluation of the Fragmentizer class "
+    "(all small fragment patterns, chunk sizes, multi-byte UTF-8 contents) + evaluation of WebsocketLayer.start over extension headers",
     "claim": "each finished message is recorded once, hooked once, and (unless dropped) forwarded once to the other peer as the re-fragmented "
     "post-hook content with the right type; re-fragmentation covers the content exactly once, keeps original boundaries for unchanged "
     "length, finishes only the last fragment and never garbles multi-byte text; ping/pong relayed; close code/reason recorded from the event.",
-    "note": "wsproto and codecs (stdlib incremental decoder) are trusted libraries; loops unrolled once in the path analysis. R28.4 relies on "
+    "note": "wsproto and codecs (stdlib incremental decoder) are trusted libraries, modelled by stubs of their documented contract; the relay is decided on "
+    "a finite set of scripted scenarios (not on all paths); iterated generators are evaluated eagerly. R28.4 relies on "
     "the library contract: split_comma_header splits at ',' and strips; PerMessageDeflate.finalize(offer) reads the parameters from the "
     "';'-separated items AFTER the first one of the complete extension entry.",
 }
@@ -72,224 +73,620 @@ WS = "mitmproxy/proxy/layers/websocket.py"
 
 
 # ---------------------------------------------------------------------------------------------------
-# R28.1
+# R28.1: the relay decided by interpretation (mitmlint.pyint) of `WebsocketLayer.relay_messages` and everything it calls
+# (WebsocketConnection.send2 / helpers, Fragmentizer, websocket.WebSocketMessage, commands.*) against a stub of the trusted
+# wsproto library and a recording proxy core + addon.  The rule compares *what the peers and the flow observe*, never the
+# shape of the code: renamed locals, inverted / early-continue branches, extracted (generator) helpers, match statements,
+# logging, assertions and annotations are interpreted like the original.
 
 
-class WsSpec(SendSpec):
-    def stmt_events(self, stmt, st, depth):
-        out = SendSpec.stmt_events(self, stmt, st, depth)
-        v = stmt.value if isinstance(stmt, (ast.Expr, ast.Assign)) else None
-        if isinstance(v, ast.Yield) and isinstance(v.value, ast.Call):
-            c = v.value
-            if isinstance(c.func, ast.Attribute) and c.func.attr == "send2" and len(c.args) == 1:
-                out.append(("send2", self.value(c.func.value, st, depth), self.value(c.args[0], st, depth)))
-            elif last_attr(c.func) in ("CloseConnection",):
-                out.append(("closeconn",))
-            elif last_attr(c.func) == "SendData":
-                out.append(("rawsend",))
-        if isinstance(stmt, ast.Assign):
-            for t in stmt.targets:
-                ch = attr_chain(t)
-                if ch and "." in ch:
-                    out.append(("set", ch, self.value(stmt.value, st, depth)))
-        return out
+class _Opcode(enum.IntEnum):
+    CONTINUATION = 0x0
+    TEXT = 0x1
+    BINARY = 0x2
+    CLOSE = 0x8
+    PING = 0x9
+    PONG = 0xA
 
-    def events(self, node, st):
-        # for-loop iterables: a call of a local that holds a Fragmentizer
-        if isinstance(node, ast.Call) and isinstance(node.func, ast.Name):
-            f = self.value(node.func, st, self._depth)
-            if isinstance(f, tuple) and f and f[0] == "call" and last_attr_name(f) == "Fragmentizer":
-                return [("refrag", f, tuple(self.value(a, st, self._depth) for a in node.args))]
-        return []
+
+class _ConnectionState(enum.Enum):
+    CONNECTING = 0
+    OPEN = 1
+    REMOTE_CLOSING = 2
+    LOCAL_CLOSING = 3
+    CLOSED = 4
+    REJECTING = 5
+
+
+class _ConnectionType(enum.Enum):
+    CLIENT = 1
+    SERVER = 2
+
+
+class _WsEvent:
+    def __repr__(self):
+        return f"{type(self).__name__}({', '.join(f'{k}={v!r}' for k, v in self.__dict__.items())})"
+
+
+class _Message(_WsEvent):
+    def __init__(self, data, frame_finished=True, message_finished=True):
+        self.data, self.frame_finished, self.message_finished = data, frame_finished, message_finished
+
+
+class _TextMessage(_Message):
+    pass
+
+
+class _BytesMessage(_Message):
+    pass
+
+
+class _Ping(_WsEvent):
+    def __init__(self, payload=b""):
+        self.payload = payload
+
+    def response(self):
+        return _Pong(self.payload)
+
+
+class _Pong(_WsEvent):
+    def __init__(self, payload=b""):
+        self.payload = payload
+
+
+class _CloseConnection(_WsEvent):
+    def __init__(self, code, reason=None):
+        self.code, self.reason = code, reason
+
+    def response(self):
+        return _CloseConnection(self.code, self.reason)
+
+
+class _Logger:
+    """stdlib logging reduced to 'has no effect on the relay'; enabled, so that guarded logging statements are interpreted too"""
+
+    def isEnabledFor(self, level):
+        return True
+
+    def _noop(self, *a, **k):
+        return None
+
+    debug = info = warning = error = exception = critical = log = _noop
+
+
+_EVENTS_NS = types.SimpleNamespace(Event=_WsEvent, Message=_Message, TextMessage=_TextMessage, BytesMessage=_BytesMessage, Ping=_Ping, Pong=_Pong, CloseConnection=_CloseConnection)
+_WSPROTO = types.SimpleNamespace(
+    events=_EVENTS_NS,
+    frame_protocol=types.SimpleNamespace(Opcode=_Opcode),
+    connection=types.SimpleNamespace(ConnectionState=_ConnectionState, ConnectionType=_ConnectionType),
+    ConnectionState=_ConnectionState,
+    ConnectionType=_ConnectionType,
+)
+_TRUSTED = {
+    "wsproto": _WSPROTO,
+    "codecs": codecs,
+    "time": types.SimpleNamespace(time=lambda: 1.0, monotonic=lambda: 1.0, perf_counter=lambda: 1.0),
+    "logging": types.SimpleNamespace(getLogger=lambda *a: _Logger(), DEBUG=10, INFO=20, WARNING=30, ERROR=40, CRITICAL=50),
+}
+
+WSM = "mitmproxy/websocket.py"
+PEV = "mitmproxy/proxy/events.py"
+
+
+def _classlike(v):
+    return isinstance(v, (PClassRef, type)) or (isinstance(v, tuple) and bool(v) and all(_classlike(x) for x in v))
+
+
+class _Eager(PInterp):
+    """pyint with *run-once* generators: a generator body is executed exactly once and every value it yields is handed to the
+    consumer of the frame it runs in - the driver's sink for the entry generator and for everything reached through
+    ``yield from`` (exact delegation semantics: the sink, i.e. the proxy core and the addons, acts *at* the yield, before the
+    code after it runs), a list for a generator that is iterated (``for x in gen()`` / ``list.extend(gen())``).  The latter
+    gives up the laziness of the iterated generator (the repository's Fragmentizer is pure with respect to the relay's state),
+    in exchange nothing is ever replayed, so stateful trusted objects (incremental decoder, the wsproto stub) stay exact."""
+
+    def __init__(self, *a, **k):
+        PInterp.__init__(self, *a, **k)
+        self._emit = []
+
+    def drain(self, g, emit):
+        if getattr(g, "_c28_started", False):
+            raise AnalysisError("relay evaluation: a generator object is consumed twice (not modelled)")
+        g._c28_started = True
+        self._emit.append(emit)
+        try:
+            return PInterp.run_gen_until(self, g, -1)[1]  # k = -1: no yield is ever the "target", the body runs to its end
+        finally:
+            self._emit.pop()
+
+    def run_gen_until(self, g, k):
+        if not hasattr(g, "_c28_items"):
+            items = []
+            g._c28_ret = self.drain(g, items.append)
+            g._c28_items = items
+        return ("yield", g._c28_items[k]) if k < len(g._c28_items) else ("stop", g._c28_ret)
+
+    def do_yield(self, value):
+        if not self._emit:
+            raise AnalysisError("relay evaluation: yield outside a driven generator")
+        self._emit[-1](value)
+        return None
+
+    def ev(self, e, env, mod, depth):
+        if isinstance(e, ast.YieldFrom):
+            sub = self.ev(e.value, env, mod, depth)
+            if isinstance(sub, PGen):
+                return self.drain(sub, self._emit[-1] if self._emit else None)
+            for x in self.iterate(sub, e.value):
+                self.do_yield(x)
+            return None
+        return PInterp.ev(self, e, env, mod, depth)
+
+    def binop(self, op, left, right, node):
+        if isinstance(op, ast.BitOr) and _classlike(left) and _classlike(right):  # isinstance(x, A | B)
+            return (left if isinstance(left, tuple) else (left,)) + (right if isinstance(right, tuple) else (right,))
+        return PInterp.binop(self, op, left, right, node)
+
+
+def _T(s, ff=True, mf=True):
+    return _TextMessage(s, frame_finished=ff, message_finished=mf)
+
+
+def _B(b, ff=True, mf=True):
+    return _BytesMessage(b, frame_finished=ff, message_finished=mf)
+
+
+def _payload(ev) -> bytes:
+    return ev.data.encode("utf-8") if isinstance(ev.data, str) else bytes(ev.data)
+
+
+# addon behaviours at the websocket_message hook: content -> (dropped, new content | None)
+POLICIES = {
+    "keep": lambda c: (False, None),
+    "same-length edit": lambda c: (False, c.swapcase()),
+    "longer": lambda c: (False, c + b"+" * 9001),
+    "shorter": lambda c: (False, c[:1]),
+    "empty": lambda c: (False, b""),
+    "drop": lambda c: (True, None),
+    "edit and drop": lambda c: (True, c + b"!"),
+}
+
+CATS = {
+    "record": "finished message: one messages.append, then one WebsocketMessageHook",
+    "message": "recorded message = WebSocketMessage(TEXT iff text, from_client, join(frame_buf))",
+    "forward": "kept message forwarded once as fragmentizer(message.content) to the other peer after the hook",
+    "dropped": "dropped message is not forwarded",
+    "boundaries": "unmodified message keeps its original frame boundaries (frame buffer tracks frame ends and is reset per message)",
+    "unfinished": "unfinished message: only buffering",
+    "ping": "ping/pong relayed once to the other peer",
+    "close": "close: code/reason/closed_by_client from the event, one end hook, done",
+    "done": "done yields nothing",
+    "raises": "relay_messages handles every wsproto event without raising",
+}
+
+
+class _Mismatch(Exception):
+    def __init__(self, cat, why):
+        self.cat, self.why = cat, why
+
+
+class _RelayWorld:
+    """one WebSocket flow: the layer under interpretation between two stub wsproto connections, a recording proxy core and an addon"""
+
+    def __init__(self, ctx, policies):
+        m = ctx.model
+        self.it = it = _Eager(m, trusted_modules=_TRUSTED, max_steps=2_000_000)
+        self.policies = list(policies)
+        self.log = []  # what the proxy core gets from the layer, in order
+        self.hooked = 0  # messages seen by hooks so far
+        self.finals = []  # per hooked message: (dropped, content) after the addon ran
+        self.wire = {}  # wire token -> (peer name, wsproto event that was serialised)
+        self.inbox = {}  # wire token -> wsproto events the stub parses from it
+        self.drained = []
+        self.peers = {"client": PRec("Client", _bases=("Connection",), _name="client"), "server": PRec("Server", _bases=("Connection",), _name="server")}
+        self.messages = []
+        self.wsdata = PRec("WebSocketData", _name="flow.websocket", messages=self.messages, closed_by_client=None, close_code=None, close_reason=None, timestamp_end=None)
+        self.flow = PRec("HTTPFlow", _bases=("Flow",), _name="flow", websocket=self.wsdata, live=True, response=PRec("Response"), request=PRec("Request"))
+        self.ws = {"client": self._conn("client", _ConnectionType.SERVER), "server": self._conn("server", _ConnectionType.CLIENT)}
+        self.me = PRec("WebsocketLayer", _bases=("Layer",), _impl=(WS, "WebsocketLayer"), _name="layer", flow=self.flow, debug=None,
+                       context=PRec("Context", client=self.peers["client"], server=self.peers["server"], options=PRec("Options")),
+                       client_ws=self.ws["client"], server_ws=self.ws["server"])
+        self.relay = it.getattr(self.me, "relay_messages", None, 0)
+        object.__setattr__(self.me, "_handle_event", self.relay)
+
+    # ---- the trusted wsproto.Connection, reduced to: bytes in -> queued events out; event in -> opaque wire bytes out
+    def _conn(self, side, role):
+        rec = PRec("WebsocketConnection", _bases=("Connection",), _impl=(WS, "WebsocketConnection"), _name=f"{side}_ws", state=_ConnectionState.OPEN, _events=[],
+                   _super_stubs={"__init__": lambda *a, **k: None})
+
+        def receive_data(data):
+            if data is None:
+                rec._events.append(_CloseConnection(1006, ""))
+            else:
+                rec._events.extend(self.inbox.pop(bytes(data)))
+
+        def events():
+            out = list(rec._events)
+            del rec._events[:]
+            self.drained.extend(out)
+            return out
+
+        def send(event):
+            tok = b"\x00W%d\x01" % len(self.wire)
+            self.wire[tok] = (side, event)
+            return tok
+
+        for k, f in (("receive_data", receive_data), ("events", events), ("send", send)):
+            object.__setattr__(rec, k, f)
+        try:
+            self.it.method(rec, "__init__", role, [], conn=self.peers[side])
+        except PRaised as r:
+            raise AnalysisError(f"WebsocketConnection.__init__ raises {r.name} on (type, extensions, conn=...) (not modelled)")
+        return rec
+
+    # ---- the proxy core + addon
+    def sink(self, cmd):
+        if not isinstance(cmd, PRec):
+            raise AnalysisError(f"relay_messages yields {cmd!r}, which is no proxy command (not modelled)")
+        if cmd.isa("Log"):
+            return
+        if cmd.isa("SendData"):
+            conn, data = cmd.__dict__.get("connection"), cmd.__dict__.get("data")
+            to = next((k for k, v in self.peers.items() if v is conn), None)
+            toks = re.findall(rb"\x00W\d+\x01", data) if isinstance(data, (bytes, bytearray)) else []
+            if to is None or not isinstance(data, (bytes, bytearray)) or b"".join(toks) != bytes(data) or any(t not in self.wire for t in toks):
+                raise AnalysisError(f"relay_messages sends {data!r} to {conn!r}: not the output of a wsproto connection's send() (not modelled)")
+            for t in toks:
+                side, event = self.wire.pop(t)
+                self.log.append(("send", to, side, event))
+        elif cmd.isa("WebsocketMessageHook"):
+            if not any(v is self.flow for v in cmd.__dict__.values()):
+                raise AnalysisError("WebsocketMessageHook is not given the layer's flow (not modelled)")
+            new = self.messages[self.hooked:]
+            self.hooked = len(self.messages)
+            snaps = [dict(m.__dict__) if isinstance(m, PRec) else {"?": m} for m in new]
+            self.log.append(("hook", snaps))
+            if len(new) == 1 and isinstance(new[0], PRec) and isinstance(new[0].__dict__.get("content"), bytes):
+                pol = self.policies.pop(0) if self.policies else "keep"
+                dropped, content = POLICIES[pol](new[0].content)
+                if content is not None:
+                    new[0].content = content
+                if dropped:
+                    new[0].dropped = True
+                self.finals.append((pol, bool(new[0].__dict__.get("dropped")), new[0].content))
+        elif cmd.isa("WebsocketEndHook"):
+            self.log.append(("endhook", {k: self.wsdata.__dict__.get(k) for k in ("close_code", "close_reason", "closed_by_client")}))
+        elif cmd.isa("CloseConnection"):
+            self.log.append(("closeconn", cmd.__dict__.get("connection")))
+        else:
+            raise AnalysisError(f"relay_messages yields a {cmd._cls} command (not modelled by R28.1)")
+
+    def feed(self, handler, event):
+        """one proxy event through ``handler``; -> (log items of this step, name of the exception it raised | None)"""
+        start = len(self.log)
+        raised = None
+        try:
+            out = self.it.apply(handler, [event], {}, 0)
+            if isinstance(out, PGen):
+                self.it.drain(out, self.sink)
+            elif out is not None:
+                for c in self.it.iterate(out, None):
+                    self.sink(c)
+        except PRaised as r:
+            raised = r.name
+        return self.log[start:], raised
+
+    def data_event(self, side, ws_events):
+        tok = b"<bytes %d>" % len(self.inbox)
+        self.inbox[tok] = list(ws_events)
+        return PRec("DataReceived", _impl=(PEV, "DataReceived"), _name="DataReceived", connection=self.peers[side], data=tok)
+
+    def closed_event(self, side):
+        return PRec("ConnectionClosed", _impl=(PEV, "ConnectionClosed"), _name="ConnectionClosed", connection=self.peers[side])
+
+    def inject_event(self, side, is_text, content):
+        msg = PRec("WebSocketMessage", _impl=(WSM, "WebSocketMessage"), _name="injected message", type=_Opcode.TEXT if is_text else _Opcode.BINARY,
+                   from_client=side == "client", content=content, timestamp=1.0, dropped=False, injected=True)
+        return PRec("WebSocketMessageInjected", _impl=(WS, "WebSocketMessageInjected"), _name="WebSocketMessageInjected", flow=self.flow, message=msg)
+
+
+def _relay_scenarios(thorough):
+    """(name, steps, addon policies per finished message).  step = ('data', [wsproto events]) | ('closed',) | ('inject', is_text, content)"""
+    def two():
+        return [("data", [_T("Hello"), _B(b"ab", ff=False, mf=False), _B(b"cd", mf=False), _B(b"", mf=False), _B(b"efg")])]
+
+    out = [
+        ("two messages in one read, untouched", two(), ["keep", "keep"]),
+        ("same-length edit / longer than FRAGMENT_SIZE", two(), ["same-length edit", "longer"]),
+        ("first dropped, second kept", two(), ["drop", "keep"]),
+        ("first kept, second dropped", two(), ["keep", "edit and drop"]),
+        ("shortened / emptied by the addon", two(), ["shorter", "empty"]),
+        ("message split over two reads with an interleaved ping",
+         [("data", [_T("hé", mf=False)]), ("data", [_T("l", ff=False, mf=False)]), ("data", [_Ping(b"p"), _T("lo €")]), ("data", [_B(b"next")])], ["keep", "keep"]),
+        ("both directions interleaved, one buffer per connection",
+         [("data", [_T("ab", mf=False)]), ("data@other", [_B(b"xyz"), _Ping(b"o")]), ("data", [_T("cd")]), ("data@other", [_T("t", ff=False, mf=False)]), ("data", [_B(b"q")]), ("data@other", [_T("u")])],
+         ["keep", "keep", "same-length edit", "keep"]),
+        ("ping, pong, message", [("data", [_Ping(b"1"), _Pong(b"2"), _B(b"x"), _Ping(b"")])], ["keep"]),
+        ("close frame", [("data", [_B(b"last"), _CloseConnection(1001, "going away")]), ("data", [_T("late"), _Ping(b"x")]), ("inject", True, b"late")], ["keep"]),
+        ("connection lost", [("data", [_T("a", mf=False)]), ("closed",), ("data", [_B(b"late")])], []),
+        ("injected text", [("inject", True, b"injected text")], ["keep"]),
+        ("injected binary, several fragments", [("inject", False, bytes(range(256)) * 36)], ["keep"]),
+        ("injected, then edited", [("inject", True, b"inj"), ("data", [_T("z")])], ["longer", "drop"]),
+    ]
+    if thorough:
+        names = list(POLICIES)
+        for a in names:
+            for b in names:
+                out.append((f"policies {a} / {b}", two(), [a, b]))
+    return out
+
+
+def _run_relay_scenario(ctx, side, name, steps, policies, fails, ran):
+    """interpret one scenario for messages coming from ``side``; first deviation per category -> fails[cat]"""
+    other = "server" if side == "client" else "client"
+    w = _RelayWorld(ctx, policies)
+    parts = {"client": [], "server": []}  # per sender: wsproto Message events of the message in progress (the reference model of frame_buf)
+    n_msg = 0
+    closed = False
+    tag = f"[{side}->{other}] {name}"
+
+    def fail(cat, why):
+        fails.setdefault(cat, f"{tag}: {why}")
+
+    for step in steps:
+        src = other if step[0].endswith("@other") else side  # who sends in this step
+        dst = side if src == other else other
+        step = (step[0].split("@")[0],) + tuple(step[1:])
+        partial = parts[src]
+        if step[0] == "data":
+            event = w.data_event(src, step[1])
+        elif step[0] == "closed":
+            event = w.closed_event(src)
+        else:
+            event = w.inject_event(src, step[1], step[2])
+        del w.drained[:]
+        handler = w.me.__dict__.get("_handle_event")
+        items, raised = w.feed(w.relay if not closed else handler, event)
+        ctx.cells += 1
+        if closed:
+            ran["done"] += 1
+            if items or raised or len(w.messages) != w.hooked:
+                fail("done", f"after the close the layer still reacts to {event._cls}: {_show_items(items)}{' raises ' + raised if raised else ''}")
+            continue
+        if raised:
+            ran["raises"] += 1
+            fail("raises", f"{event._cls} with wsproto events {w.drained or step[1:]} raises {raised}")
+            return
+        ws_events = list(step[1]) if step[0] == "data" else list(w.drained)
+        if step[0] == "inject":
+            body = b"".join(_payload(e) for e in ws_events if isinstance(e, _Message))
+            kinds = {type(e) for e in ws_events}
+            if body != step[2] or kinds != {_TextMessage if step[1] else _BytesMessage} or partial_unfinished(ws_events):
+                fail("message", f"an injected {'TEXT' if step[1] else 'BINARY'} message {step[2][:20]!r} enters the relay as {ws_events!r:.200}")
+                return
+        # ---- the reference trace of this step
+        pos = 0
+        try:
+            for ev in ws_events:
+                if isinstance(ev, _Message):
+                    partial.append(ev)
+                    if not ev.message_finished:
+                        continue
+                    is_text = isinstance(ev, _TextMessage)
+                    content = b"".join(_payload(e) for e in partial)
+                    frames = [0]
+                    for e in partial:
+                        frames[-1] += len(_payload(e))
+                        if e.frame_finished and not e.message_finished:
+                            frames.append(0)
+                    del partial[:]
+                    ran["record"] += 1
+                    if pos < len(items) and items[pos][0] == "send" and isinstance(items[pos][3], _Message):
+                        raise _Mismatch("forward", "a fragment is sent before the hook ran (addon edits / drops are lost)")
+                    if pos >= len(items) or items[pos][0] != "hook" or len(items[pos][1]) != 1:
+                        got = "no WebsocketMessageHook" if pos >= len(items) or items[pos][0] != "hook" else f"a hook that finds {len(items[pos][1])} new entries in flow.websocket.messages"
+                        raise _Mismatch("record", f"a finished {'TEXT' if is_text else 'BINARY'} message of {len(content)} bytes causes {got}")
+                    snap = items[pos][1][0]
+                    pos += 1
+                    ran["message"] += 1
+                    want = {"type": _Opcode.TEXT if is_text else _Opcode.BINARY, "from_client": src == "client", "content": content, "dropped": False}
+                    bad = {k: snap.get(k, "<unset>") for k, v in want.items() if not (k in snap and type(snap[k]) is type(v) and snap[k] == v)}
+                    if bad:
+                        raise _Mismatch("message", f"message {content[:24]!r} (frames {frames}) is recorded with {bad}")
+                    pol, dropped, final = w.finals[n_msg]
+                    n_msg += 1
+                    group = []
+                    while pos < len(items) and items[pos][0] == "send" and isinstance(items[pos][3], _Message):
+                        group.append(items[pos])
+                        pos += 1
+                        if group[-1][3].message_finished:
+                            break
+                    if dropped:
+                        ran["dropped"] += 1
+                        if group:
+                            raise _Mismatch("dropped", f"a message dropped by the addon ({pol}) is still sent: {_show_items(group)}")
+                        continue
+                    ran["forward"] += 1
+                    if not group:
+                        raise _Mismatch("forward", f"a message that was not dropped ({pol}) is never forwarded")
+                    evs = [g[3] for g in group]
+                    if any(g[1] != dst or g[2] != dst for g in group):
+                        raise _Mismatch("forward", f"fragments are sent to {sorted({g[1] for g in group})} via {sorted({g[2] + '_ws' for g in group})} instead of the other peer ({dst})")
+                    if any(type(e) is not (_TextMessage if is_text else _BytesMessage) or not isinstance(e.data, str if is_text else (bytes, bytearray)) for e in evs):
+                        raise _Mismatch("forward", f"a {'TEXT' if is_text else 'BINARY'} message is forwarded as {[type(e).__name__.lstrip('_') for e in evs]}")
+                    joined = "".join(e.data for e in evs).encode("utf-8") if is_text else b"".join(bytes(e.data) for e in evs)
+                    if joined != final:
+                        raise _Mismatch("forward", f"policy '{pol}': recorded content after the hook is {final[:40]!r} ({len(final)} bytes), the peer receives {joined[:40]!r} ({len(joined)} bytes)")
+                    if [e.message_finished for e in evs] != [False] * (len(evs) - 1) + [True]:
+                        raise _Mismatch("forward", f"message_finished flags of the forwarded fragments: {[e.message_finished for e in evs]}")
+                    if pol == "keep":
+                        ran["boundaries"] += 1
+                        if [len(_payload(e)) for e in evs] != frames:
+                            raise _Mismatch("boundaries", f"an unmodified message received in frames of {frames} bytes is forwarded in frames of {[len(_payload(e)) for e in evs]} bytes")
+                elif isinstance(ev, (_Ping, _Pong)):
+                    ran["ping"] += 1
+                    if pos >= len(items) or items[pos][0] != "send" or items[pos][3] is not ev or items[pos][1] != dst or items[pos][2] != dst:
+                        raise _Mismatch("ping", f"{type(ev).__name__.lstrip('_')} is answered with {_show_items(items[pos:pos + 1]) or 'nothing'}")
+                    pos += 1
+                elif isinstance(ev, _CloseConnection):
+                    ran["close"] += 1
+                    closed = True
+                    rest = items[pos:]
+                    pos = len(items)
+                    hooks = [i for i in rest if i[0] == "endhook"]
+                    want = {"close_code": ev.code, "close_reason": ev.reason, "closed_by_client": src == "client"}
+                    if len(hooks) != 1 or hooks[0][1] != want or any(i[0] == "hook" for i in rest) or len(w.messages) != w.hooked:
+                        raise _Mismatch("close", f"close {ev.code} {ev.reason!r} from the {src}: {len(hooks)} end hook(s), the flow records {hooks[0][1] if hooks else None}")
+                    h = w.me.__dict__.get("_handle_event")
+                    if not isinstance(h, PFunc) or h.node is w.relay.node:
+                        raise _Mismatch("close", f"after the close the layer's event handler is {'still relay_messages' if isinstance(h, PFunc) else repr(h)}")
+            if partial and not any(isinstance(e, (_Message,)) and e.message_finished for e in ws_events):
+                ran["unfinished"] += 1
+            if pos < len(items):
+                extra = items[pos:]
+                cat = "unfinished" if partial and pos == 0 else "record" if extra[0][0] == "hook" else "ping" if extra[0][0] == "send" and not isinstance(extra[0][3], _Message) else "forward"
+                raise _Mismatch(cat, f"unexpected after {ws_events!r:.160}: {_show_items(extra)}")
+            if len(w.messages) != w.hooked:
+                raise _Mismatch("record" if not partial else "unfinished", f"{len(w.messages) - w.hooked} message(s) appended to flow.websocket.messages without a WebsocketMessageHook")
+            if w.wire:
+                raise _Mismatch("forward", f"{len(w.wire)} wsproto send() result(s) never reach the connection (the peer's stream state is corrupted)")
+        except _Mismatch as x:
+            fail(x.cat, x.why)
+            return
+
+
+def partial_unfinished(ws_events):
+    msgs = [e for e in ws_events if isinstance(e, _Message)]
+    return not msgs or not msgs[-1].message_finished or any(e.message_finished for e in msgs[:-1])
+
+
+def _show_items(items):
+    out = []
+    for i in items[:6]:
+        if i[0] == "send":
+            out.append(f"send({i[3]!r:.80} via {i[2]}_ws to {i[1]})")
+        elif i[0] == "hook":
+            out.append(f"WebsocketMessageHook({len(i[1])} new)")
+        elif i[0] == "endhook":
+            out.append("WebsocketEndHook")
+        else:
+            out.append(i[0])
+    return ", ".join(out) + (" ..." if len(items) > 6 else "")
 
 
 def check_r281(ctx):
     m = ctx.model
     fn = ctx.func(WS, "WebsocketLayer.relay_messages")
+    done = ctx.func(WS, "WebsocketLayer.done") if m.has(WS, "WebsocketLayer.done") else None  # whatever handler is installed after the close is evaluated
     where = (WS, "WebsocketLayer.relay_messages", fn)
-    flags = [n.targets[0].id for n in ast.walk(fn) if isinstance(n, ast.Assign) and len(n.targets) == 1 and isinstance(n.targets[0], ast.Name)]
-    ctx.require("from_client" in flags and "is_text" in flags, "relay_messages: locals from_client / is_text vanished")
-    loop_vars = SymSpec.loop_vars_of(fn)
-    ctx.require("ws_event" in loop_vars and "msg" in loop_vars, f"relay_messages: loop variables changed: {sorted(loop_vars)}")
-    seen = {"finished": 0, "sent": 0, "dropped": 0, "frame_end": 0, "ping": 0, "close": 0}
-    for from_client in (True, False):
-        src, dst = ("self.client_ws", "self.server_ws") if from_client else ("self.server_ws", "self.client_ws")
-        for is_text in (True, False):
-            spec = WsSpec(loop_vars=loop_vars, forced={"from_client": from_client, "is_text": is_text})
-            traces, eng = traces_of(fn, spec)
-            ctx.paths += len(traces)
-            tag = f"{'client' if from_client else 'server'}->{'TEXT' if is_text else 'BINARY'}"
-            EVT = ("elem", ("call", "src_ws.events", (), 0))
-            for trace, how, st in traces:
-                if how != "return":
-                    continue
-                conds = {e[1]: e[2] for e in trace if e[0] == "cond"}
-                appends = [(i, e) for i, e in enumerate(trace) if e[0] == "append" and e[1] == sym("self.flow.websocket.messages")]
-                hooks = [(i, e) for i, e in enumerate(trace) if e[0] == "hook"]
-                sends = [(i, e) for i, e in enumerate(trace) if e[0] == "send2"]
-                is_msg = conds.get("isinstance(ws_event, wsproto.events.Message)")
-                if is_msg and conds.get("ws_event.message_finished"):
-                    seen["finished"] += 1
-                    mh = [h for h in hooks if h[1][1] == "WebsocketMessageHook"]
-                    ok = len(appends) == 1 and len(mh) == 1 and appends[0][0] < mh[0][0]
-                    ctx.check(ok, "R28.1", where, "finished message: one messages.append, then one WebsocketMessageHook",
-                              f"[{tag}] a finished message is recorded {len(appends)}x and hooked {len(mh)}x (order {[e[0] for _, e in sorted(appends + mh)]})",
-                              desc=f"[{tag}] recorded once, hooked once")
-                    if not ok:
-                        continue
-                    M = appends[0][1][2]
-                    a = call_args(M, ["type", "from_client", "content", "timestamp", "dropped", "injected"][:])
-                    margs = None
-                    if isinstance(M, tuple) and M[0] == "call" and last_attr_name(M) == "WebSocketMessage":
-                        pos = [x for x in M[2] if not (isinstance(x, tuple) and x and x[0] == "kw")]
-                        kws = {x[1]: x[2] for x in M[2] if isinstance(x, tuple) and x and x[0] == "kw"}
-                        names = ["type", "from_client", "content", "timestamp", "dropped", "injected"]
-                        margs = dict(zip(names, pos))
-                        margs.update(kws)
-                    if margs is None:
-                        raise AnalysisError(f"relay_messages records something that is not WebSocketMessage(...): {show(M)}")
-                    buf = sym(f"{src}.frame_buf")
-                    want_content = ("call", "b''.join", (buf,), 0)
-                    okm = (
-                        margs.get("type") == sym("Opcode.TEXT" if is_text else "Opcode.BINARY")
-                        and margs.get("from_client") == C(from_client)
-                        and isinstance(margs.get("content"), tuple) and margs["content"][:3] == want_content[:3]
-                        and "dropped" not in margs
-                    )
-                    ctx.check(okm, "R28.1", where, "recorded message = WebSocketMessage(TEXT iff text, from_client, join(frame_buf))",
-                              f"[{tag}] recorded message is {show(M)}: type/direction/content must be those of the received message",
-                              desc=f"[{tag}] message type, direction and joined content")
-                    # payload accumulation: text is encoded, binary raw
-                    adds = [e for e in trace[: appends[0][0]] if e[0] == "extend" and e[1] == ("idx", buf, C(-1))]
-                    want_add = ("call", "ws_event.data.encode", (), 0) if is_text else attr_of(EVT, "data")
-                    oka = len(adds) == 1 and (adds[0][2][:2] == want_add[:2] if is_text else adds[0][2] == want_add)
-                    ctx.check(oka, "R28.1", where, "frame payload appended to the last buffer element",
-                              f"[{tag}] the frame payload is accumulated as {[show(e[2]) for e in adds]}", desc=f"[{tag}] payload appended to frame_buf[-1]")
-                    resets = [e for e in trace if e[0] == "set" and e[1] == "src_ws.frame_buf"]
-                    okr = len(resets) == 1 and resets[0][2] == ("tuple", C(b""))
-                    ctx.check(okr, "R28.1", where, "frame buffer reset to [b''] after a finished message",
-                              f"[{tag}] frame buffer after a finished message: {[show(e[2]) for e in resets] or 'not reset'}: the next message would contain this one again",
-                              desc=f"[{tag}] frame_buf reset")
-                    dropped = conds.get("message.dropped")
-                    refr = [(i, e) for i, e in enumerate(trace) if e[0] == "refrag"]
-                    if dropped is None:
-                        ctx.fail("R28.1", where, "forwarding is not conditional on message.dropped", f"[{tag}] a path forwards / skips without consulting message.dropped")
-                        continue
-                    if dropped:
-                        seen["dropped"] += 1
-                        ctx.check(not sends and not refr, "R28.1", where, "dropped message is not forwarded", f"[{tag}] a dropped message is still sent", desc=f"[{tag}] dropped => nothing sent")
-                        continue
-                    if not sends:
-                        # zero iterations of the send loop (empty fragment iterator) - the iterator itself must still be the right one
-                        ok0 = len(refr) == 1
-                        ctx.check(ok0, "R28.1", where, "kept message is handed to the fragmentizer", f"[{tag}] a message that was not dropped is never forwarded", desc=f"[{tag}] kept => fragmentizer(message.content)")
-                        continue
-                    seen["sent"] += 1
-                    F = ("call", "Fragmentizer", (buf, C(is_text)), 0)
-                    oks = True
-                    why = ""
-                    if len(refr) != 1 or refr[0][0] < mh[0][0]:
-                        oks, why = False, "content is fragmented before the hook ran (addon edits are lost)"
-                    else:
-                        f, args = refr[0][1][1], refr[0][1][2]
-                        if f[:3] != F[:3]:
-                            oks, why = False, f"fragmentizer is {show(f)}, expected Fragmentizer(<pre-reset frame buffer>, is_text={is_text})"
-                        elif args != (attr_of(M, "content"),):
-                            oks, why = False, f"fragmentizer is applied to {[show(x) for x in args]}, not to the recorded message's content"
-                        for i, e in sends:
-                            if i < mh[0][0]:
-                                oks, why = False, "a fragment is sent before the hook"
-                            elif e[1] != sym(dst):
-                                oks, why = False, f"fragments are sent to {show(e[1])} instead of the other peer {dst}"
-                            elif not (isinstance(e[2], tuple) and e[2][0] == "elem" and e[2][1][:3] == ("call", "fragmentizer", args)):
-                                oks, why = False, f"what is sent ({show(e[2])}) is not an element of fragmentizer(message.content)"
-                    ctx.check(oks, "R28.1", where, "kept message forwarded once as fragmentizer(message.content) to the other peer after the hook",
-                              f"[{tag}] {why}", desc=f"[{tag}] forwarded after hook to {dst}")
-                elif is_msg:
-                    fe = conds.get("ws_event.frame_finished")
-                    newbuf = [e for e in trace if e[0] == "append" and e[1] == sym(f"{src}.frame_buf")]
-                    if fe:
-                        seen["frame_end"] += 1
-                    ok = not hooks and not sends and not appends and ((len(newbuf) == 1 and newbuf[0][2] == C(b"")) if fe else not newbuf)
-                    ctx.check(ok, "R28.1", where, "unfinished message: only buffering",
-                              f"[{tag}] an unfinished message (frame_finished={fe}) causes hooks={len(hooks)} sends={len(sends)} new buffer elements={[show(e[2]) for e in newbuf]}",
-                              desc=f"[{tag}] unfinished message (frame_finished={bool(fe)}) only buffers")
-                elif conds.get("isinstance(ws_event, (wsproto.events.Ping, wsproto.events.Pong))"):
-                    seen["ping"] += 1
-                    ok = len(sends) == 1 and sends[0][1][1] == sym(dst) and sends[0][1][2] == EVT and not appends
-                    ctx.check(ok, "R28.1", where, "ping/pong relayed once to the other peer", f"[{tag}] ping/pong handling sends {[(show(e[1]), show(e[2])) for _, e in sends]}",
-                              desc=f"[{tag}] ping/pong -> {dst}")
-                elif conds.get("isinstance(ws_event, wsproto.events.CloseConnection)"):
-                    seen["close"] += 1
-                    sets = {e[1]: e[2] for e in trace if e[0] == "set"}
-                    eh = [h for h in hooks if h[1][1] == "WebsocketEndHook"]
-                    ok = (
-                        sets.get("self.flow.websocket.close_code") == attr_of(EVT, "code")
-                        and sets.get("self.flow.websocket.close_reason") == attr_of(EVT, "reason")
-                        and sets.get("self.flow.websocket.closed_by_client") == C(from_client)
-                        and len(eh) == 1 and not appends
-                        and sets.get("self._handle_event") == sym("self.done")
-                    )
-                    ctx.check(ok, "R28.1", where, "close: code/reason/closed_by_client from the event, one end hook, done",
-                              f"[{tag}] close handling records {[(k, show(v)) for k, v in sets.items()]} and fires {len(eh)} end hooks",
-                              desc=f"[{tag}] close recorded from the event; end hook; done")
-    if seen["finished"] and not seen["frame_end"]:
-        ctx.fail("R28.1", where, "frame ends inside an unfinished message are not recorded",
-                 "no path consults ws_event.frame_finished for an unfinished message: the original frame boundaries are lost, unmodified messages are re-framed")
-    need = {"finished": 8, "sent": 4, "dropped": 4, "frame_end": 4, "ping": 4, "close": 4}
-    if not ctx.findings:
-        for k, n in need.items():
-            ctx.require(seen[k] >= n, f"relay_messages: only {seen[k]} '{k}' paths analysed (expected >= {n}): the path model collapsed")
-    done = ctx.func(WS, "WebsocketLayer.done")
-    loud = [y for y in yields_in(done) if not (isinstance(y, ast.YieldFrom) and isinstance(y.value, ast.Tuple) and not y.value.elts)]
-    ctx.check(not loud, "R28.1", (WS, "WebsocketLayer.done", done), "done yields nothing", "the finished WebSocket layer still emits commands", desc="done is silent")
+    for rel, qual in ((WS, "WebsocketConnection"), (WS, "WebSocketMessageInjected"), (WS, "Fragmentizer"), (WSM, "WebSocketMessage"), (PEV, "DataReceived"), (PEV, "ConnectionClosed")):
+        ctx.require(m.has(rel, qual), f"R28.1: class {qual} vanished from {rel}")
+    for side in ("client", "server"):
+        scenarios = _relay_scenarios(ctx.tier == "thorough")
+        fails = {}
+        ran = dict.fromkeys(CATS, 0)
+        for name, steps, policies in scenarios:
+            _run_relay_scenario(ctx, side, name, steps, policies, fails, ran)
+        tag = f"{side}->{'server' if side == 'client' else 'client'}"
+        for cat, construct in CATS.items():
+            if cat == "raises":
+                if cat in fails:
+                    ctx.fail("R28.1", where, construct, fails[cat])
+                continue
+            if cat not in fails and not ran[cat] and not fails:
+                raise AnalysisError(f"R28.1: no scenario exercised '{cat}' for {tag} (the evaluation collapsed)")
+            w = (WS, "WebsocketLayer.done", done) if cat == "done" and done is not None else where
+            ctx.check(cat not in fails, "R28.1", w, construct, fails.get(cat, ""), desc=f"[{tag}] {construct} ({ran[cat]} cases)")
 
 
 # ---------------------------------------------------------------------------------------------------
 # R28.2 / R28.3: finite evaluation of the Fragmentizer class
 
 
+_NOLIT = object()
+
+
+def _literal(node):
+    """value of a literal expression (constants, + - * // % ** << on ints, tuples / lists of literals) or _NOLIT"""
+    if isinstance(node, ast.Constant):
+        return node.value
+    if isinstance(node, (ast.Tuple, ast.List)):
+        vs = [_literal(e) for e in node.elts]
+        return _NOLIT if any(v is _NOLIT for v in vs) else (tuple(vs) if isinstance(node, ast.Tuple) else vs)
+    if isinstance(node, ast.UnaryOp) and isinstance(node.op, (ast.USub, ast.UAdd)):
+        v = _literal(node.operand)
+        return _NOLIT if v is _NOLIT or not isinstance(v, int) else (-v if isinstance(node.op, ast.USub) else v)
+    if isinstance(node, ast.BinOp):
+        a, b = _literal(node.left), _literal(node.right)
+        if a is _NOLIT or b is _NOLIT or not (type(a) is int and type(b) is int):
+            return _NOLIT
+        try:
+            if isinstance(node.op, ast.Add):
+                return a + b
+            if isinstance(node.op, ast.Sub):
+                return a - b
+            if isinstance(node.op, ast.Mult):
+                return a * b
+            if isinstance(node.op, ast.FloorDiv):
+                return a // b
+            if isinstance(node.op, ast.Mod):
+                return a % b
+            if isinstance(node.op, ast.LShift) and 0 <= b < 64:
+                return a << b
+            if isinstance(node.op, ast.Pow) and 0 <= b < 64:
+                return a**b
+        except ZeroDivisionError:
+            return _NOLIT
+    return _NOLIT
+
+
 class FragHarness:
+    """The Fragmentizer class interpreted from its AST (pyint, run-once generators): any spelling inside the interpreter's subset -
+    renamed / extracted helpers, merged or split loops, comprehensions, class-level access to FRAGMENT_SIZE - is evaluated like the
+    original.  FRAGMENT_SIZE is the documented monkeypatch point: for one evaluation its class-level literal is replaced in the
+    (in-memory) AST, so `self.FRAGMENT_SIZE`, `type(self).FRAGMENT_SIZE` and `Fragmentizer.FRAGMENT_SIZE` all see the small test size."""
+
     def __init__(self, ctx):
         m = ctx.model
         self.cls = m.cls(WS, "Fragmentizer")
         self.init = ctx.func(WS, "Fragmentizer.__init__")
         self.call = ctx.func(WS, "Fragmentizer.__call__")
-        self.methods = {f"self.{st.name}": st for st in self.cls.body if isinstance(st, ast.FunctionDef) and not st.name.startswith("__")}
-        ctx.require([a.arg for a in self.init.args.args] == ["self", "fragments", "is_text"], "Fragmentizer.__init__ signature changed")
-        ctx.require([a.arg for a in self.call.args.args] == ["self", "content"], "Fragmentizer.__call__ signature changed")
-        self.consts = {}
-        for st in self.cls.body:
-            if isinstance(st, ast.Assign) and len(st.targets) == 1 and isinstance(st.targets[0], ast.Name) and isinstance(st.value, ast.Constant):
-                self.consts[st.targets[0].id] = st.value.value
-        ctx.require(isinstance(self.consts.get("FRAGMENT_SIZE"), int) and self.consts["FRAGMENT_SIZE"] > 0, "Fragmentizer.FRAGMENT_SIZE is no positive int literal")
-        self.steps = 0
+        for fn, n in ((self.init, 3), (self.call, 2)):
+            a = fn.args
+            npos = len(a.posonlyargs) + len(a.args)
+            ctx.require(npos - len(a.defaults) <= n <= npos or (a.vararg is not None and npos - len(a.defaults) <= n) and not [k for k, d in zip(a.kwonlyargs, a.kw_defaults) if d is None],
+                        f"Fragmentizer.{fn.name} no longer takes {n - 1} positional argument(s): {[x.arg for x in a.args]}")
+        self.size_stmt = None
+        for st in self.cls.body:  # class-level constant: FRAGMENT_SIZE = <literal> | FRAGMENT_SIZE: int = <literal> (literal arithmetic allowed)
+            tgt = st.targets[0] if isinstance(st, ast.Assign) and len(st.targets) == 1 else st.target if isinstance(st, ast.AnnAssign) and st.value is not None else None
+            if isinstance(tgt, ast.Name) and tgt.id == "FRAGMENT_SIZE":
+                self.size_stmt = st
+        v = _literal(self.size_stmt.value) if self.size_stmt is not None else _NOLIT
+        ctx.require(type(v) is int and v > 0, "Fragmentizer.FRAGMENT_SIZE is no positive int literal")
+        self.it = _Eager(m, trusted_modules=_TRUSTED, max_steps=10**9)
+        self.cref = PClassRef(m.module(WS), self.cls)
+
+    @property
+    def steps(self):
+        return self.it.steps
 
     def run(self, fragments, is_text, content, fragment_size):
         """-> list of (kind, data, finished)"""
-        attrs = dict(self.consts)
-        attrs["FRAGMENT_SIZE"] = fragment_size
-        funcs = dict(self.methods)
-        funcs.update({
-            "wsproto.events.TextMessage": lambda data, message_finished=True, frame_finished=True: ("text", data, message_finished),
-            "wsproto.events.BytesMessage": lambda data, message_finished=True, frame_finished=True: ("bytes", data, message_finished),
-            "codecs.getincrementaldecoder": codecs.getincrementaldecoder,
-            "codecs.iterdecode": lambda it, enc, errors="strict": list(codecs.iterdecode(it, enc, errors)),
-            "codecs.decode": codecs.decode,
-            "str": str,
-        })
-        ev = Concrete(lambda n: (_ for _ in ()).throw(KeyError(n)), attrs, funcs, max_steps=100000)
-        ev.trusted_types = (codecs.IncrementalDecoder, type)
+        saved = self.size_stmt.value
+        self.size_stmt.value = ast.Constant(fragment_size)
         try:
-            ev.call(self.init, list(fragments), is_text)
-            out = ev.call_gen(self.call, bytes(content))
-        except Raised as r:
-            self.steps += ev.steps
+            frag = self.it.apply(self.cref, [list(fragments), is_text], {}, 0)
+            res = self.it.apply(frag, [bytes(content)], {}, 0)
+            res = list(res) if isinstance(res, PGen) else self.it.iterate(res, self.call)
+        except PRaised as r:
             return [("raise", r.name, True)]
-        self.steps += ev.steps
-        for o in out:
-            if not (isinstance(o, tuple) and len(o) == 3 and o[0] in ("text", "bytes")):
+        finally:
+            self.size_stmt.value = saved
+        out = []
+        for o in res:
+            if type(o) not in (_TextMessage, _BytesMessage):
                 raise AnalysisError(f"Fragmentizer yields something that is not a Text/BytesMessage: {o!r}")
+            out.append(("text" if type(o) is _TextMessage else "bytes", o.data, o.message_finished))
         return out
 
 
@@ -384,77 +781,25 @@ def check_r282(ctx, h):
 # R28.4: extension negotiation reaches both wsproto connections
 
 
-class _Unmodelled(Exception):
-    pass
-
-
-class _Opaque:
-    """result of a call the evaluation does not model; any attempt to *decide* something with it is fail-closed"""
-
-    def __init__(self, name):
-        self.name = name
-
-    def _no(self, *a, **k):
-        raise _Unmodelled(f"a decision depends on the unmodelled value {self.name}")
-
-    __bool__ = __eq__ = __ne__ = __iter__ = __len__ = __getitem__ = __contains__ = _no
-    __hash__ = object.__hash__
-
-    def __repr__(self):
-        return f"<opaque {self.name}>"
-
-
 class _PMD:
     """wsproto.extensions.PerMessageDeflate, reduced to its contract: finalize(offer) reads the parameters from the
     ';'-separated items after the first one (the extension name) of the complete extension entry."""
 
+    name = "permessage-deflate"
+    created: list = []  # every instance made during the current evaluation
+
     def __init__(self, *a, **k):
         self.finalized = []
+        _PMD.created.append(self)
 
     def finalize(self, offer):
         if not isinstance(offer, str):
-            raise _Unmodelled(f"PerMessageDeflate.finalize is called with {offer!r}")
+            raise TypeError(f"PerMessageDeflate.finalize is called with {offer!r}")
         self.finalized.append([b.strip() for b in offer.split(";")][1:])
 
 
-class _Headers:
-    def __init__(self, fields):
-        self.fields = {k.lower(): v for k, v in fields.items()}
-
-    def get(self, key, default=None):
-        return self.fields.get(key.lower(), default)
-
-    def get_all(self, key):
-        return [self.fields[key.lower()]] if key.lower() in self.fields else []
-
-    def __getitem__(self, key):
-        return self.fields[key.lower()]
-
-    def __contains__(self, key):
-        return key.lower() in self.fields
-
-
-class _StartEval(Concrete):
-    SAFE_METHODS = Concrete.SAFE_METHODS | {"strip", "lstrip", "rstrip", "partition", "rpartition", "replace", "removeprefix", "removesuffix", "find", "casefold", "title"}
-
-    def expr(self, e, env):
-        if isinstance(e, ast.JoinedStr):  # real f-string semantics: the text may flow into finalize()
-            parts = []
-            for v in e.values:
-                if isinstance(v, ast.Constant):
-                    parts.append(str(v.value))
-                    continue
-                x = self.expr(v.value, env)
-                if isinstance(x, _Opaque) or v.format_spec is not None:
-                    return _Opaque(norm(e))
-                parts.append(repr(x) if v.conversion == ord("r") else str(x))
-            return "".join(parts)
-        try:
-            return Concrete.expr(self, e, env)
-        except AnalysisError as x:
-            if isinstance(e, ast.Call) and "outside the supported subset" in str(x):
-                return _Opaque(norm(e.func))
-            raise
+_WSPROTO.extensions = types.SimpleNamespace(PerMessageDeflate=_PMD)
+_WSPROTO.utilities = types.SimpleNamespace(split_comma_header=lambda value: [piece.decode("ascii").strip() for piece in value.split(b",")])
 
 
 PMD_NAME = "permessage-deflate"
@@ -484,73 +829,44 @@ def negotiated(header):
 
 
 def check_r284(ctx):
+    """`WebsocketLayer.start` interpreted (pyint) per response header; WebsocketConnection is a recording stub (its wsproto base class is the
+    trusted library), so helper extraction, renamed locals, other ways of cutting the header and added logging are evaluated like the original."""
+    m = ctx.model
     fn = ctx.func(WS, "WebsocketLayer.start")
     where = (WS, "WebsocketLayer.start", fn)
-    params = [a.arg for a in fn.args.args]
-    ctx.require(len(params) == 2 and params[0] == "self", f"WebsocketLayer.start signature changed: {params}")
     bad = {}
     n = 0
     for header in EXT_HEADERS:
         want = negotiated(header)
         conns = []
-        pmds = []
-
-        def make_pmd(*a, **k):
-            p = _PMD()
-            pmds.append(p)
-            return p
+        del _PMD.created[:]
 
         def make_conn(connection_type=None, extensions=None, trailing_data=b"", *, conn=None):
             conns.append({"role": connection_type, "extensions": extensions, "conn": conn})
             return ("ws", len(conns) - 1)
 
-        known = {
-            "self.flow.response": "response",
-            "self.flow.response.headers": _Headers({} if header is None else {"Sec-WebSocket-Extensions": header}),
-            "wsproto.extensions.PerMessageDeflate.name": PMD_NAME,
-            "PerMessageDeflate.name": PMD_NAME,
-            "self.context.client": "context.client",
-            "self.context.server": "context.server",
-        }
-        for pre in ("wsproto.ConnectionType.", "ConnectionType.", "wsproto.connection.ConnectionType."):
-            known[pre + "SERVER"] = "SERVER"
-            known[pre + "CLIENT"] = "CLIENT"
-
-        def resolve(name):
-            if name in known:
-                return known[name]
-            return _Opaque(name)
-
-        funcs = {
-            "wsproto.utilities.split_comma_header": lambda value: [piece.decode("ascii").strip() for piece in value.split(b",")],
-            "split_comma_header": lambda value: [piece.decode("ascii").strip() for piece in value.split(b",")],
-            "wsproto.extensions.PerMessageDeflate": make_pmd,
-            "PerMessageDeflate": make_pmd,
-            "WebsocketConnection": make_conn,
-            "commands.Log": lambda *a, **k: ("log",),
-            "WebsocketStartHook": lambda *a, **k: ("hook",),
-            "str": str,
-        }
-        attrs = {"flow": "flow"}
-        ev = _StartEval(resolve, attrs, funcs, max_steps=20000)
-        ev.trusted_types = (_PMD, _Headers)
+        it = _Eager(m, trusted_modules=_TRUSTED, max_steps=200000)
+        it.overrides[(WS, "WebsocketConnection")] = make_conn
+        headers = PDictRec("Headers", items={} if header is None else {"Sec-WebSocket-Extensions": header}, case_insensitive=True, _name="response.headers")
+        flow = PRec("HTTPFlow", _bases=("Flow",), _name="flow", response=PRec("Response", _name="response", headers=headers, status_code=101), request=PRec("Request"),
+                    websocket=PRec("WebSocketData", messages=[]), live=True)
+        me = PRec("WebsocketLayer", _bases=("Layer",), _impl=(WS, "WebsocketLayer"), _name="layer", flow=flow, debug=None,
+                  context=PRec("Context", client="context.client", server="context.server", options=PRec("Options")))
         try:
-            ev.call_gen(fn, "start-event")
-        except Raised as r:
-            raise AnalysisError(f"WebsocketLayer.start raises {r.name} for the response header Sec-WebSocket-Extensions: {header!r} (not modelled)")
-        except (_Unmodelled, TypeError, AttributeError, ValueError, KeyError) as x:
-            raise AnalysisError(f"WebsocketLayer.start: shape not modelled by the R28.4 evaluation ({type(x).__name__}: {x})")
+            out = it.method(me, "start", PRec("Start", _bases=("Event",)))
+            if isinstance(out, PGen):
+                it.drain(out, lambda cmd: None)
+        except PRaised as r:
+            raise AnalysisError(f"WebsocketLayer.start raises {r.name} ({r.msg}) for the response header Sec-WebSocket-Extensions: {header!r} (not modelled)")
         n += 1
         sides = {}
-        for name, role, conn in (("client_ws", "SERVER", "context.client"), ("server_ws", "CLIENT", "context.server")):
-            w = attrs.get(name)
+        for name, role, conn in (("client_ws", _ConnectionType.SERVER, "context.client"), ("server_ws", _ConnectionType.CLIENT, "context.server")):
+            w = me.__dict__.get(name)
             if not (isinstance(w, tuple) and len(w) == 2 and w[0] == "ws"):
                 raise AnalysisError(f"WebsocketLayer.start does not bind self.{name} to a WebsocketConnection (got {w!r})")
             c = conns[w[1]]
-            if isinstance(c["role"], _Opaque) or isinstance(c["conn"], _Opaque) or isinstance(c["extensions"], _Opaque):
-                raise AnalysisError(f"WebsocketLayer.start: arguments of self.{name} = WebsocketConnection(...) not modelled: {c}")
-            if c["role"] != role or c["conn"] != conn:
-                bad.setdefault(f"self.{name} must be the wsproto {role} endpoint on {conn}", (header, f"it is created as {c['role']} endpoint on {c['conn']}"))
+            if c["role"] is not role or c["conn"] != conn:
+                bad.setdefault(f"self.{name} must be the wsproto {role.name} endpoint on {conn}", (header, f"it is created as {getattr(c['role'], 'name', c['role'])} endpoint on {c['conn']}"))
             exts = list(c["extensions"] or [])
             if any(not isinstance(x, _PMD) for x in exts):
                 raise AnalysisError(f"WebsocketLayer.start: self.{name} gets extensions that are no PerMessageDeflate objects: {exts!r}")
@@ -589,7 +905,7 @@ def check(ctx):
     check_r283(ctx, h)
     check_r284(ctx)
     ctx.note(f"Fragmentizer AST interpreted for {h.steps} steps")
-    for rule, n in (("R28.1", 40), ("R28.2", 1), ("R28.3", 1), ("R28.4", 1)):
+    for rule, n in (("R28.1", 18), ("R28.2", 1), ("R28.3", 1), ("R28.4", 1)):
         if not any(f.rule == rule for f in ctx.findings):
             ctx.expect_instances(rule, n)
 
@@ -615,6 +931,9 @@ MUTANTS = [
     Mutant("forward-before-hook", WS, "                    self.flow.websocket.messages.append(message)\n                    yield WebsocketMessageHook(self.flow)\n\n                    if not message.dropped:\n                        for msg in fragmentizer(message.content):\n                            yield dst_ws.send2(msg)\n",
            "                    self.flow.websocket.messages.append(message)\n                    if not message.dropped:\n                        for msg in fragmentizer(message.content):\n                            yield dst_ws.send2(msg)\n                    yield WebsocketMessageHook(self.flow)\n", "R28.1"),
     Mutant("echo-to-sender", WS, "                            yield dst_ws.send2(msg)\n", "                            yield src_ws.send2(msg)\n", "R28.1"),
+    Mutant("dropped-message-ends-the-read", WS, "                    if not message.dropped:\n                        for msg in fragmentizer(message.content):\n                            yield dst_ws.send2(msg)\n",
+           "                    if message.dropped:\n                        return\n                    for msg in fragmentizer(message.content):\n                        yield dst_ws.send2(msg)\n", "R28.1"),
+    Mutant("injected-message-direction-ignored", WS, "            from_client = event.message.from_client\n", "            from_client = True\n", "R28.1"),
     Mutant("frame-buffer-not-reset", WS, "                    src_ws.frame_buf = [b\"\"]\n", "", "R28.1"),
     Mutant("fragmentizer-after-reset", WS, "                    fragmentizer = Fragmentizer(src_ws.frame_buf, is_text)\n                    src_ws.frame_buf = [b\"\"]\n",
            "                    src_ws.frame_buf = [b\"\"]\n                    fragmentizer = Fragmentizer(src_ws.frame_buf, is_text)\n", "R28.1"),
